@@ -22,9 +22,11 @@ from .. import core, famcheck, pestenv, replay_ext, symx
 from ..symx import Engine, SymStr
 
 NEVER = "\U0010ffff\U0010fffe"
+STACK_RULES = {"children", "lists", "lines", "line"}
 KINDS = ["group", "reassocL", "reassocR", "extract", "dup", "never", "notnever"]
 # combinations: kind A at the site, then kind B at a path relative to the node A produced
-COMBOS = ["never+extract@0.0", "notnever+extract@0.0", "dup+extract@0.0", "dup+extract@0.1", "never+extract@0.1", "group+never@0", "extract+never@", "never+dup@0.1", "group+group@0"]
+COMBOS = ["never+extract@0.0", "notnever+extract@0.0", "dup+extract@0.0", "dup+extract@0.1", "never+extract@0.1", "group+never@0", "extract+never@", "never+dup@0.1", "group+group@0",
+          "never+dup@0.0.0", "never+never@0.0.0", "notnever+dup@0.0.0.0", "dup+never@0.0", "dup+dup@0.1", "notnever+never@0.1"]
 HERE = os.path.dirname(os.path.dirname(os.path.dirname(os.path.abspath(__file__))))
 
 
@@ -257,9 +259,14 @@ def plan(tier: str, seed: int):
                     variants.append((rel, rname, path, kind, entries))
     total = len(variants)
     if tier == "quick":
-        singles = [v for v in variants if "+" not in v[3]]
-        combos = [v for v in variants if "+" in v[3]]
-        variants = rnd.sample(singles, min(600, len(singles))) + rnd.sample(combos, min(500, len(combos)))
+        # every variant at the sites of rules that use the stack terminals (few rules; state-heavy) ...
+        is_prio = lambda v: v[0].endswith("lists.pest") and v[1] in STACK_RULES  # noqa: E731
+        prio = [v for v in variants if is_prio(v)]
+        rest = [v for v in variants if not is_prio(v)]
+        singles = [v for v in rest if "+" not in v[3]]
+        combos = [v for v in rest if "+" in v[3]]
+        # ... and a seeded sample of the others
+        variants = prio + rnd.sample(singles, min(550, len(singles))) + rnd.sample(combos, min(400, len(combos)))
     tasks = []
     for rel, rname, path, kind, entries in variants:
         r2 = random.Random(f"{seed}/{rel}/{rname}/{path}/{kind}")
